@@ -61,8 +61,24 @@ def oracle_orth(ck, dims, J, name, shape):
     e2 = float((g - s).abs().max())
     if e2 > tol * max(1.0, float(s.abs().max())):
         ck.fail(desc + ': |backprop(g) - inverse(g)| = %.3g' % e2, replay); return 'transpose'
+    # ... and BOTH equal the transpose of the extracted operator (S - A^T, autograd Jacobian - A^T): two wrong things that agree
+    # with each other (an analysis that uses another orthonormal pair than the synthesis and the backward pass) pass every test above
+    x1 = T(gen.float_tensor(ck.nprng, (1, 1) + tuple(shape))).requires_grad_(True)
+    yl1, yh1 = fwd(x1)
+    c1 = [T(gen.float_tensor(ck.nprng, tuple(t.shape))) for t in [yl1] + list(yh1)]
+    want = (A.T @ flat(c1).reshape(-1)).reshape(x1.shape)
+    (g1,) = torch.autograd.grad([yl1] + list(yh1), x1, c1)
+    with torch.no_grad():
+        s1 = inv((c1[0], c1[1:]))
+    sc = max(1.0, float(want.abs().max()))
+    e3 = float((g1 - want).abs().max()); e4 = float((s1 - want).abs().max()) if tuple(s1.shape) == tuple(want.shape) else float('inf')
+    if e3 > tol * sc:
+        ck.fail(desc + ': |backprop(g) - A^T g| = %.3g (A extracted from unit impulses)' % e3, replay); return 'jacobian'
+    if e4 > tol * sc:
+        ck.fail(desc + ': |inverse(g) - A^T g| = %.3g (A extracted from unit impulses)' % e4, replay); return 'transpose'
     ck.oracle_ok((dims, J, str(name), tuple(shape)), group='orth%dd' % dims,
-                 sample={'wavelet': name, 'J': J, 'shape': list(shape), 'AtA_minus_I': e1, 'energy_defect': abs(en - ex), 'backprop_minus_inverse': e2})
+                 sample={'wavelet': name, 'J': J, 'shape': list(shape), 'AtA_minus_I': e1, 'energy_defect': abs(en - ex), 'backprop_minus_inverse': e2,
+                         'backprop_minus_At': e3, 'inverse_minus_At': e4})
     return None
 
 
